@@ -279,6 +279,13 @@ class PathA(FormulaSpace):
         b = self.bdd
         last = path.rsplit("::", 1)[-1]
         try:
+            # x.is_some() / x.is_none() / r.is_ok() / r.is_err() are the same atoms as `match` / `if let` on x
+            if "option::Option::<T>::" in path and last in ("is_some", "is_none") and len(args) == 1:
+                none = self.is_atom(("is", args[0], "None"))
+                return none if last == "is_none" else b.NOT(none)
+            if "result::Result::<T, E>::" in path and last in ("is_ok", "is_err") and len(args) == 1:
+                okf = self.is_atom(("is", args[0], "Ok"))
+                return okf if last == "is_ok" else b.NOT(okf)
             if ("option::Option::<T>::" in path and last in ("is_some_and", "is_none_or", "map_or")) or \
                     ("result::Result::<T, E>::" in path and last in ("is_ok_and", "is_err_and")):
                 subj = args[0]
